@@ -149,7 +149,9 @@ def _record(text):
 def _compare(ctx, P, text, mode):
     G = generic_for(P)
     site = P.cutter.site
-    if len(occurrences(text, site)) != 1 or len(occurrences(text, rc(site))) != 1:
+    if mode == "extrasite":
+        ctx.count("c05_compared_with_third_site")
+    elif len(occurrences(text, site)) != 1 or len(occurrences(text, rc(site))) != 1:
         ctx.count("skipped_not_two_sites")
         return
     ctx.count("evaluations")
@@ -169,6 +171,13 @@ def _compare(ctx, P, text, mode):
                       "%s (signature %s, %s) %s a record for which the signature-free class %s and reports overhangs %s" % (
                           P.__name__, P.signature, P.cutter, "accepts" if got else "rejects",
                           "accepts" if gv else "rejects", wit["generic_overhangs"]), **wit)
+    # the same entity asked again gives the same answer (an answer is a function of class and record, not of the asking)
+    again = p.is_valid()
+    if again is not got:
+        ctx.violation("part-answer-changes-when-asked-again:%s-then-%s" % ("accept" if got else "reject", "accept" if again else "reject"),
+                      "%s(record).is_valid() said %s, and %s when the same entity was asked again" % (P.__name__, got, again), **wit)
+    if got is not exp:
+        pass
     elif got:
         a = (str(p.overhang_start()), str(p.overhang_end()), str(p.target_sequence().seq))
         b = (str(g.overhang_start()), str(g.overhang_end()), str(g.target_sequence().seq))
@@ -193,6 +202,22 @@ def _texts(rng, P, siblings, count):
             i = (start + rng.randrange(k)) % len(s)
             s = s[:i] + rng.choice([x for x in "ACGT" if x != s[i]]) + s[i + 1:]
         yield mode, rot_left(s, rng.randrange(len(s)))
+    # members spoilt by a further copy of the site that *opens* the structure, placed inside it: the signature-free class
+    # refuses such a plasmid (illegal site) and so must the part, every time it is asked.  A copy of the opening site only
+    # adds possible match starts, never ends, so the leftmost match of the part is still the leftmost match of the generic class
+    rx = gen.rng_for("c05-extrasite", P.__name__, str(P.signature), count)
+    site = P.cutter.site
+    for j in range(max(1, count // 4)):
+        inst = gen.instance(rx, P.structure(), run_max=25)
+        first = inst[:len(site)].upper()
+        if first not in (site, rc(site)):
+            continue
+        i = len(inst) // 2 + rx.randint(-2, 2)
+        s = inst[:i] + first + inst[i:] + gen.rand_dna(rx, rx.randint(2, 20))
+        other = rc(first)
+        if len(occurrences(s, first)) != 2 or len(occurrences(s, other)) != 1:
+            continue
+        yield "extrasite", rot_left(s, rx.randrange(len(s)))
 
 
 def execute(mat, ctx):
